@@ -19,7 +19,14 @@ func f32key(x eval.Pawns) int64 {
 	return int64(b)
 }
 
+// negZeroKey spells the float -0.0 in an op line (sign bit set, magnitude 0). It is the same VALUE as +0.0 - results are printed
+// with the key 0 for both - but a comparison done on bit patterns could tell them apart.
+const negZeroKey = -2147483648
+
 func keyF32(k int64) eval.Pawns {
+	if k == negZeroKey {
+		return eval.Pawns(math.Float32frombits(0x80000000))
+	}
 	if k < 0 {
 		return eval.Pawns(math.Float32frombits(uint32(-k) | 0x80000000))
 	}
@@ -151,11 +158,19 @@ func scorePool(r *rand.Rand) []eval.Score {
 	return pool
 }
 
+// spell is fmtScore for the operand of an op line: the one difference is that the float -0.0 is spelled as such.
+func spell(s eval.Score) string {
+	if s.Type == eval.Heuristic && math.Float32bits(float32(s.Pawns)) == 0x80000000 {
+		return fmt.Sprintf("H:%d:%d", s.Mate, int64(negZeroKey))
+	}
+	return fmtScore(s)
+}
+
 func genScore(o *Out, r *rand.Rand, thorough bool) {
 	pool := scorePool(r)
 	o.info["pool_size"] = len(pool)
 	for _, a := range pool {
-		sa := fmtScore(a)
+		sa := spell(a)
 		for _, op := range []string{"neg", "inc", "dist", "negneg", "dec", "decinc", "roundtrip", "deceq"} {
 			o.do("score " + op + " " + sa)
 		}
@@ -172,9 +187,9 @@ func genScore(o *Out, r *rand.Rand, thorough bool) {
 		o.Count("constructor:mate")
 	}
 	for _, a := range pool {
-		sa := fmtScore(a)
+		sa := spell(a)
 		for _, b := range pool {
-			sb := fmtScore(b)
+			sb := spell(b)
 			for _, op := range []string{"less", "max", "min", "antitone", "incmono", "tricho"} {
 				o.do("score " + op + " " + sa + " " + sb)
 			}
@@ -190,7 +205,7 @@ func genScore(o *Out, r *rand.Rand, thorough bool) {
 	}
 	for i := 0; i < n; i++ {
 		a, b, c := pool[r.Intn(len(pool))], pool[r.Intn(len(pool))], pool[r.Intn(len(pool))]
-		o.do("score trans " + fmtScore(a) + " " + fmtScore(b) + " " + fmtScore(c))
+		o.do("score trans " + spell(a) + " " + spell(b) + " " + spell(c))
 		o.Count("triple")
 	}
 }
